@@ -1,0 +1,28 @@
+//go:build verif
+
+// Contracts (machine-checked specifications) for the forwarder genesis type, read by /verif's govc.
+// This file contains comments only and compiles to nothing with or without the tag.
+
+package forwarder
+
+// A valid forwarder genesis (C17): every listed protocol identifier is supported, every listed
+// cross-chain identifier is non-nil and valid, and nothing is listed twice. Validate accepts exactly these.
+//@ macro protoIdsOK(g) = forall j int trigger(g.PausedProtocolIds[j]) :: 0 <= j && j < len(g.PausedProtocolIds) ==> okProto(g.PausedProtocolIds[j])
+//@ macro protoIdsDistinct(g) = forall i int, j int trigger(g.PausedProtocolIds[i], g.PausedProtocolIds[j]) :: 0 <= i && i < j && j < len(g.PausedProtocolIds) ==> g.PausedProtocolIds[i] != g.PausedProtocolIds[j]
+//@ macro ccAt(g, j) = deref(g.PausedCrossChainIds[j])
+//@ macro ccIdsOK(g) = forall j int trigger(g.PausedCrossChainIds[j]) :: 0 <= j && j < len(g.PausedCrossChainIds) ==> g.PausedCrossChainIds[j] != nil && vcc(ccAt(g, j))
+//@ macro ccIdsDistinct(g) = forall i int, j int trigger(g.PausedCrossChainIds[i], g.PausedCrossChainIds[j]) :: 0 <= i && i < j && j < len(g.PausedCrossChainIds) ==> ccAt(g, i) != ccAt(g, j)
+//@ macro fwdGenesisOK(g) = g != nil && protoIdsOK(g) && protoIdsDistinct(g) && ccIdsOK(g) && ccIdsDistinct(g)
+
+//@ func (g *GenesisState) Validate() (err)
+//@   loop 0 invariant[C17] forall j int :: 0 <= j && j < idx ==> okProto(g.PausedProtocolIds[j]) && mapHas(seenProtocols, g.PausedProtocolIds[j])
+//@   loop 0 invariant[C17] forall i int, j int :: 0 <= i && i < j && j < idx ==> g.PausedProtocolIds[i] != g.PausedProtocolIds[j]
+//@   loop 0 invariant[C17c] forall k int trigger(mapHas(seenProtocols, k)) :: (forall j int :: 0 <= j && j < idx ==> g.PausedProtocolIds[j] != k) ==> !mapHas(seenProtocols, k)
+//@   loop 1 invariant[C17] forall j int :: 0 <= j && j < idx ==> g.PausedCrossChainIds[j] != nil && vcc(ccAt(g, j)) && mapHas(seenCrossChains, ccAt(g, j))
+//@   loop 1 invariant[C17] forall i int, j int :: 0 <= i && i < j && j < idx ==> ccAt(g, i) != ccAt(g, j)
+//@   loop 1 invariant[C17c] forall k T_types_core_CrossChainID trigger(mapHas(seenCrossChains, k)) :: (forall j int :: 0 <= j && j < idx ==> ccAt(g, j) != k) ==> !mapHas(seenCrossChains, k)
+//@   ensures[C17] err == nil ==> g != nil && protoIdsOK(g)
+//@   ensures[C17] err == nil ==> protoIdsDistinct(g)
+//@   ensures[C17] err == nil ==> ccIdsOK(g)
+//@   ensures[C17] err == nil ==> ccIdsDistinct(g)
+//@   ensures[C17c] fwdGenesisOK(g) ==> err == nil
